@@ -111,7 +111,8 @@ def controls():
         ("violation:P4", "GWS", hs + [E("in", "init"), O("pending")]),
         ("ok", "GWS", [E("in", "init"), E("recv", "init"), E("initcall"), O("pending"), E("in", "init"), O("pending")]),
         ("known:DevInvalid1002", "GWS", [E("in", "bad"), E("recv", "bad"), O("close", "", 1002), O("none")]),
-        ("violation:P5", "GWS", [E("in", "bad"), E("recv", "bad"), O("close", "", 4400), O("pending")]),
+        ("violation:P5", "GWS", [E("in", "bad"), E("recv", "bad"), O("close", "", 4400), O("pending"), O("pong")]),
+        ("ok", "GWS", [E("in", "bad"), E("recv", "bad"), O("close", "", 4400), O("pending"), O("none")]),
         ("violation:P5", "STWS", hs + st("a", 1) + [E("ev", "", "a", 1), E("in", "term"), E("recv", "term"), O("next", "a", 1)]),
         ("violation:P0", "GWS", hs + [O("close", "", 1000)]),
         ("violation:P0", "GWS", hs + [O("error")]),
@@ -187,7 +188,7 @@ def replay(c):
     c.count_case(tr["events"], nontrivial=True)
     c.count_case(tr["sched"], nontrivial=True)
     c.sample({"observed": show(tr), "verdict": tr["verdict"]})
-    c.verdict(tr["verdict"].split(":")[0] if tr["verdict"].startswith("violation") else tr["verdict"], tr, tr.get("why", ""))
+    c.verdict(tr["verdict"], tr, tr.get("why", ""))
     c.cov["rule"] = "replay of one stored case"
 
 
@@ -279,8 +280,7 @@ def body(c):
             if e["t"] == "close":
                 codes[e["n"]] = codes.get(e["n"], 0) + 1
         c.count_case([tr["proto"], tr["keepalive"], tr["events"]], nontrivial=any(e["k"] == "recv" for e in tr["events"]))
-        vd = tr["verdict"]
-        c.verdict(vd if not vd.startswith("violation") else "violation", tr, tr.get("why", ""))
+        c.verdict(tr["verdict"], tr, tr.get("why", ""))
     if not c.violations:   # vacuity guards apply to a run that would otherwise report "held"
         for k, n in seen.items():
             if n == 0:
